@@ -25,7 +25,20 @@ type oracle struct {
 	inlined    map[pdf.Reference]bool          // source references whose value stands directly in a target /Filter or /DecodeParms
 	hits       map[pdf.Reference]int           // how often a learnt source reference was met again
 	streams    []int64                         // raw lengths of the streams seen in the target
-	cls        map[string]bool
+	// A source reference whose value was made direct in /Filter or
+	// /DecodeParms may have been copied invisibly at that time (the present
+	// Copier does so) or only when it is met as an ordinary reference later.
+	// In the first case the references inside the copy follow the
+	// redirections in force at the earlier call.  Both are accepted.
+	callIdx     int
+	redir       map[pdf.Reference]pdf.Reference   // redirections in force
+	redirAt     []map[pdf.Reference]pdf.Reference // ... at the start of each call
+	inlinedCall map[pdf.Reference]int             // call during which a reference was first made direct
+	altCall     int                               // >= 0: also accept the relation as of that call
+
+	inParms bool   // comparing a /DecodeParms entry (as opposed to /Filter)
+	parms   string // non-empty while inside a /DecodeParms dictionary: its form
+	cls     map[string]bool
 }
 
 func (o *oracle) fail(path, format string, args ...any) error {
@@ -36,6 +49,16 @@ func (o *oracle) fail(path, format string, args ...any) error {
 // holds the reference t.
 func (o *oracle) visitRef(s, t pdf.Reference, path string) error {
 	if cur, ok := o.f[s]; ok {
+		if cur != t && o.altCall >= 0 {
+			alt, ok := o.redirAt[o.altCall][s]
+			if !ok {
+				alt, ok = o.learnt[s]
+			}
+			if ok && alt == t {
+				o.cls["copied-before-redirect-via-inlined-object"] = true
+				return nil
+			}
+		}
 		if cur != t {
 			if o.redirected[s] {
 				return o.fail(path, "source reference %s was redirected to %s, but the target refers to %s", s, cur, t)
@@ -62,6 +85,12 @@ func (o *oracle) visitRef(s, t pdf.Reference, path string) error {
 	}
 	o.f[s] = t
 	o.learnt[s] = t
+	defer func(p string, a int) { o.parms, o.altCall = p, a }(o.parms, o.altCall)
+	o.parms = ""
+	o.altCall = -1
+	if at, ok := o.inlinedCall[s]; ok && at < o.callIdx {
+		o.altCall = at
+	}
 
 	if so := o.m.objs[s]; so != nil && !so.isStream && so.val.T == "ref" {
 		o.cls["ref-chain"] = true
@@ -126,6 +155,15 @@ func isNullObj(obj pdf.Object) bool {
 func (o *oracle) cmpVal(sv gen.O, tv pdf.Object, path string) error {
 	if sv.T == "ref" {
 		s := mkRef(sv.N, sv.G)
+		if o.parms != "" {
+			// a reference nested inside a decode-parameter dictionary: it
+			// takes part in f like any other reference
+			o.cls["nested-decodeparms-ref"] = true
+			o.cls["nested-decodeparms-ref:"+o.parms] = true
+			if so := o.m.final(s); so != nil && so.isStream {
+				o.cls["nested-decodeparms-ref:to-stream"] = true
+			}
+		}
 		t, ok := tv.(pdf.Reference)
 		if !ok {
 			// "must resolve to null in the target": a direct null is as good
@@ -216,7 +254,9 @@ func (o *oracle) cmpDict(sv gen.O, td pdf.Dict, path string, stream bool) error 
 		sub := path + "/" + string(key)
 		var err error
 		if stream && (key == "Filter" || key == "DecodeParms") {
+			o.inParms = key == "DecodeParms"
 			err = o.cmpInline(kv.V, tv, sub, 0)
+			o.inParms = false
 		} else {
 			err = o.cmpVal(kv.V, tv, sub)
 		}
@@ -248,6 +288,9 @@ func (o *oracle) cmpInline(sv gen.O, tv pdf.Object, path string, level int) erro
 		}
 		s := mkRef(sv.N, sv.G)
 		o.inlined[s] = true
+		if _, ok := o.inlinedCall[s]; !ok {
+			o.inlinedCall[s] = o.callIdx
+		}
 		o.cls["filter-ref-inlined"] = true
 		so := o.m.final(s)
 		if so == nil {
@@ -259,6 +302,8 @@ func (o *oracle) cmpInline(sv gen.O, tv pdf.Object, path string, level int) erro
 		if so.isStream {
 			return o.fail(path, "unexpected stream in a filter entry")
 		}
+		defer func(p string) { o.parms = p }(o.parms)
+		o.parms = "indirect"
 		return o.cmpInline(so.val, tv, path+"->"+s.String(), level)
 	}
 	if sv.T == "arr" && level == 0 {
@@ -272,6 +317,17 @@ func (o *oracle) cmpInline(sv gen.O, tv pdf.Object, path string, level int) erro
 			}
 		}
 		return nil
+	}
+	if sv.T == "dict" && o.inParms {
+		form := "dict-form"
+		if level == 1 {
+			form = "array-form"
+		}
+		if o.parms == "indirect" {
+			form += "-indirect"
+		}
+		defer func(p string) { o.parms = p }(o.parms)
+		o.parms = form
 	}
 	return o.cmpVal(sv, tv, path)
 }
